@@ -99,6 +99,14 @@ namespace LibfiberVerif.Join
   | .fGot q | .fGotRes q _ | .fGave q => q == p
   | _ => false
 
+/-- program points of a fiber that makes calls at which its own hand-over slot (`result`) is
+    clear: everywhere except between the hand-over by the finishing fiber (the earliest moment
+    is the deferred store that parks the joiner) and the joiner's own clearing store -/
+@[simp, grind] def slotFree : Pc → Bool
+  | .idle | .called _ _ | .tLoaded1 _ | .loaded _ _ | .jPark0 _ | .jParking _
+  | .take0 _ _ | .take _ _ _ | .wake _ _ _ _ | .retn _ _ _ _ => true
+  | _ => false
+
 @[grind →] theorem jpk_jp {c g} (h : joinerPark c g = true) : joinerPath c g = true := by
   cases c <;> simp_all
 @[grind →] theorem jp_cp {c g} (h : joinerPath c g = true) : claimPath c g = true := by
